@@ -79,7 +79,7 @@ MANIFEST = {
             "PDN data): no all-False mask row while the batch is unfinished, done monotone, finishing step within the "
             "bound. Rows are driven by opposing choosers so finished rows are padded for many steps; the decode "
             "loops of AttentionModelPolicy (greedy / sampling / multistart) on 11 envs are additionally bounded by the slowest "
-            "row's step bound. Liveness is restated as bounded progress.",
+            "row's step bound. Liveness is restated as bounded progress. Also: instances of another size than the env generator's, OP rows with no reachable customer, DenseRewardTSPEnv, FJSP/JSSP step-wise-reward / check_mask options.",
     "note": "Bounds are generous upper bounds stated in ASSUMPTIONS; a hung episode is observed through the driver's own step "
             "cap (6n+30), never through wall-clock.",
     "technique": "runtime monitoring: per-step invariant monitor (mask non-empty, done monotone, bounded progress) on recorded batched episodes",
